@@ -33,7 +33,7 @@
 (* Conversions to a signed type that cannot hold the value are               *)
 (* implementation-defined (6.3.1.3p3); the specification follows the two's   *)
 (* complement wrap that gcc (the property's reference) documents and that    *)
-(* ppci's run-time casts implement, and notes "castS" / "destS" /"impl-...". *)
+(* ppci's run-time casts implement, and notes "castS" / "destS" there.       *)
 EXTENDS Words, FiniteSets, TLC
 
 (* ---- types and the data model -------------------------------------------- *)
